@@ -278,7 +278,7 @@ fn cases(thorough: bool) -> Vec<Case> {
         add("programs_of_C08", crate::c08::cases_for_c04(false).iter().map(|c| print_program(&c.prog, false)).collect(), 1, &mut out);
         add("programs_of_C06", crate::c06::cases_for_c04(false).iter().map(|c| print_program(&c.prog, false)).collect(), 1, &mut out);
         add("programs_of_C18", crate::c18::cases_for_c04(false).iter().map(|c| print_program(&c.prog, false)).collect(), 1, &mut out);
-        add("programs_of_C07", crate::c07::cases_for_c04(false).iter().map(|c| print_program(&c.prog, false)).collect(), quick_stride(5), &mut out);
+        add("programs_of_C07", crate::c07::cases_all(false).iter().map(|c| print_program(&c.prog, false)).collect(), quick_stride(5), &mut out);
         add("programs_of_C05", crate::c05::cases_for_c04(false).iter().map(|c| print_program(&c.prog, false)).collect(), quick_stride(5), &mut out);
     }
     // self-containing data, borrow conflicts, mutation during iteration
